@@ -151,7 +151,7 @@ def _run(prop, tier, seed, meta, run_dir, t_start):
         return 2
     _G["eng"] = eng
     idxs = [i for i, d in enumerate(eng.decls) if d.kind in ("func", "lemma", "history", "coverage", "frame") and _relevant(d, prop)
-            and not (d.kind == "func" and ("effectfree" in d.flags or "assumed" in d.flags or "opaque" in d.flags))]
+            and not (d.kind == "func" and (("effectfree" in d.flags and not d.tags) or "assumed" in d.flags or "opaque" in d.flags))]
     declared = 0
     for i in idxs:
         d = eng.decls[i]
